@@ -130,6 +130,19 @@ def dtype_ok(meta_dt, got_dt, values, empty_ok):
     return mf[0] == gf[0] and mf[1] == "f" and gf[1] in "iu"
 
 
+def direction(meta_dt, got_dt):
+    """Low-cardinality description of a dtype difference (part of the signature)."""
+    def k(dt):
+        f = _numfam(dt) if not isinstance(dt, type) else None
+        if f:
+            return {"i": "int", "u": "int", "f": "float"}[f[1]] + ("" if f[0] == "np" else "-masked")
+        if isinstance(dt, np.dtype):
+            return {"b": "bool", "O": "object", "M": "datetime", "m": "timedelta"}.get(dt.kind, dt.kind)
+        return getattr(dt, "name", None) or getattr(dt, "__name__", "other")
+
+    return f"{k(meta_dt)}->{k(got_dt)}"
+
+
 def index_facts(ix):
     names = list(ix.names)
     if isinstance(ix, pd.MultiIndex):
@@ -149,12 +162,11 @@ def compare_meta(meta, got, where, sig, empty_ok=False, check_index=True, full=N
         mt = np.asarray(meta).dtype if not isinstance(meta, (pd.Timestamp, pd.Timedelta, str)) and meta is not pd.NA else type(meta)
         gt = np.asarray(got).dtype if not isinstance(got, (pd.Timestamp, pd.Timedelta, str)) and got is not pd.NA else type(got)
         if mt != gt:
-            ok = isinstance(mt, np.dtype) and isinstance(gt, np.dtype) and mt.kind in "iuf" and gt.kind in "iuf" and mt.kind != gt.kind and (gt.kind != "f" or _has_missing(np.asarray(got)))
             # a computed missing value (reduction over nothing) has no dtype information
-            ok = ok or _has_missing(np.asarray(got, dtype=object))
-            # pd.NA / NaT results of reductions over missing data have no dtype of their own
-            ok = ok or got is pd.NA or got is pd.NaT or (isinstance(gt, np.dtype) and gt.kind == "O" and _has_missing(np.asarray(got, dtype=object)))
-            ensure(ok, f"{where}: lazy scalar dtype {mt}, computed {gt} ({got!r})", "meta-dtype-mismatch", where=w, **sig)
+            ok = _has_missing(np.asarray(got, dtype=object))
+            if not ok and isinstance(mt, np.dtype) and isinstance(gt, np.dtype):
+                ok = dtype_ok(mt, gt, np.asarray([got]), False)
+            ensure(ok, f"{where}: lazy scalar dtype {mt}, computed {gt} ({got!r})", "meta-dtype-mismatch", where=w, change=direction(mt, gt), **sig)
         return
     if mk == "DataFrame":
         ensure(
@@ -177,11 +189,12 @@ def compare_meta(meta, got, where, sig, empty_ok=False, check_index=True, full=N
                 f"{where}: column {c!r}: lazy dtype {meta.dtypes.iloc[i]}, computed {got.dtypes.iloc[i]}",
                 "meta-dtype-mismatch",
                 where=w,
+                change=direction(meta.dtypes.iloc[i], got.dtypes.iloc[i]),
                 **sig,
             )
     elif mk == "Series":
         ensure(_same_name(meta.name, got.name), f"{where}: lazy name {meta.name!r}, computed {got.name!r}", "meta-name-mismatch", where=w, **sig)
-        ensure(dtype_ok(meta.dtype, got.dtype, full if isinstance(full, pd.Series) else got, empty_ok), f"{where}: lazy dtype {meta.dtype}, computed {got.dtype}", "meta-dtype-mismatch", where=w, **sig)
+        ensure(dtype_ok(meta.dtype, got.dtype, full if isinstance(full, pd.Series) else got, empty_ok), f"{where}: lazy dtype {meta.dtype}, computed {got.dtype}", "meta-dtype-mismatch", where=w, change=direction(meta.dtype, got.dtype), **sig)
     if not check_index:
         return
     mi = meta if mk == "Index" else meta.index
